@@ -517,3 +517,168 @@ Definition collision_witness : rep :=
 Theorem rep_call_collapse_refuted :
   exists r k v, wf r /\ call_data (abs r) k = CRMany /\ rep_setcall true r k = OOne v.
 Proof. exists collision_witness, (vint 1), (vpair n_item (vint 0) (vint 2)). vm_compute. repeat split. Qed.
+
+(* ---------- Count() ---------- *)
+
+Lemma opt_members_length nm : forall c off, Z.of_nat (length (opt_members nm off c)) = count_some c.
+Proof.
+  unfold count_some. induction c as [|x c IH]; intros off; [reflexivity|].
+  specialize (IH (off + 1)). destruct x as [v|]; cbn [opt_members filter length]; lia.
+Qed.
+
+Lemma count_some_str_cells c : count_some (str_cells c) = Z.of_nat (length c) - count_holes c.
+Proof.
+  unfold count_some, count_holes, str_cells. induction c as [|x c IH]; [reflexivity|].
+  cbn [map filter length]. destruct (x <? 0); cbn [filter length]; lia.
+Qed.
+
+Lemma count_some_byte_cells bs : count_some (byte_cells bs) = Z.of_nat (length bs).
+Proof.
+  unfold count_some, byte_cells. induction bs as [|x bs IH]; [reflexivity|]. cbn [map filter length]. lia.
+Qed.
+
+(* Count() - computed from the stored hole / count fields - is the number of members enumerated *)
+Theorem count_is_length r : wf r -> rep_count r = Z.of_nat (length (abs r)).
+Proof.
+  induction r using rep_ind2; intros Hwf; unfold wf in Hwf.
+  - reflexivity.
+  - reflexivity.
+  - cbn [wfb] in Hwf. apply andb_true_iff in Hwf as [_ Hh]. apply Z.eqb_eq in Hh. subst h.
+    cbn [rep_count abs]. rewrite opt_members_length, count_some_str_cells. reflexivity.
+  - cbn [rep_count abs]. rewrite opt_members_length, count_some_byte_cells. reflexivity.
+  - cbn [wfb] in Hwf. apply andb_true_iff in Hwf as [_ Hh]. apply Z.eqb_eq in Hh. subst n.
+    cbn [rep_count abs]. rewrite opt_members_length. reflexivity.
+  - cbn [rep_count abs]. clear Hwf. unfold dict_members. induction es as [|e es IH]; [reflexivity|].
+    cbn [fold_right flat_map]. rewrite app_length, map_length, IH. lia.
+  - cbn [rep_count abs]. rewrite map_length. reflexivity.
+  - reflexivity.
+  - reflexivity.
+  - change (wfb (RUnion (r :: bs))) with (wfb r && wfb (RUnion bs)) in Hwf. apply andb_true_iff in Hwf as [W1 W2].
+    change (rep_count (RUnion (r :: bs))) with (rep_count r + rep_count (RUnion bs)).
+    change (abs (RUnion (r :: bs))) with (abs r ++ abs (RUnion bs)).
+    rewrite app_length, (IHr W1), (IHr0 W2). lia.
+Qed.
+
+(* ---------- n \ s ---------- *)
+
+Lemma num_add_int i n : num_add (NInt i) (NInt n) = NInt (i + n).
+Proof.
+  unfold num_add, num2. replace (2 * i + 2 * n) with ((i + n) * 2) by lia.
+  rewrite Z.even_mul, orb_true_r, Z.div_mul by lia. reflexivity.
+Qed.
+
+Lemma shift_vpair n nm i x : shift_member n (vpair nm (vint i) x) = Ok (vpair nm (vint (i + n)) x).
+Proof. unfold shift_member, vpair, vint. cbn [tget name_cmp n_at Z.compare Pos.compare Pos.compare_cont ainsert fst]. rewrite num_add_int. reflexivity. Qed.
+
+Lemma shift_opt_members nm n : forall c off,
+  mapM (shift_member n) (opt_members nm off c) = Ok (opt_members nm (off + n) c).
+Proof.
+  induction c as [|x c IH]; intros off; [reflexivity|].
+  destruct x as [v|]; cbn [opt_members mapM].
+  - rewrite shift_vpair, IH. cbn [rbind]. replace (off + 1 + n) with (off + n + 1) by lia. reflexivity.
+  - rewrite IH. replace (off + 1 + n) with (off + n + 1) by lia. reflexivity.
+Qed.
+
+Lemma opt_members_trim_front nm : forall c o i,
+  first_some c = Some i -> opt_members nm (o + Z.of_nat i) (skipn i c) = opt_members nm o c.
+Proof.
+  induction c as [|x c IH]; intros o i; [discriminate|].
+  destruct x as [v|]; cbn [first_some].
+  - intros [= <-]. cbn [skipn]. replace (o + Z.of_nat 0) with o by lia. reflexivity.
+  - destruct (first_some c) as [j|] eqn:E; [|discriminate]. intros [= <-].
+    cbn [skipn opt_members]. rewrite <- (IH (o + 1) j eq_refl). f_equal. lia.
+Qed.
+
+Lemma opt_members_snoc_none nm : forall c o, opt_members nm o (c ++ [None]) = opt_members nm o c.
+Proof.
+  induction c as [|x c IH]; intros o; [reflexivity|].
+  destruct x; cbn [app opt_members]; rewrite IH; reflexivity.
+Qed.
+
+Lemma opt_members_trim_back nm c : forall o j,
+  first_some (rev c) = Some j -> opt_members nm o (firstn (length c - j) c) = opt_members nm o c.
+Proof.
+  induction c as [|x c IH] using rev_ind; intros o j; [discriminate|].
+  rewrite rev_app_distr. cbn [rev app]. destruct x as [v|]; cbn [first_some].
+  - intros [= <-]. rewrite Nat.sub_0_r, firstn_all. reflexivity.
+  - destruct (first_some (rev c)) as [j'|] eqn:E; [|discriminate]. intros [= <-].
+    rewrite app_length. cbn [length]. replace (length c + 1 - S j')%nat with (length c - j')%nat by lia.
+    rewrite firstn_app. replace (length c - j' - length c)%nat with 0%nat by lia.
+    cbn [firstn]. rewrite app_nil_r, opt_members_snoc_none. apply IH. reflexivity.
+Qed.
+
+Lemma abs_new_offset_array o c : abs (new_offset_array o c) = opt_members n_item o c.
+Proof.
+  unfold new_offset_array.
+  assert (H1 : forall o1 c1, abs (match (match first_some (rev c1) with Some j => firstn (length c1 - j) c1 | None => c1 end) with
+                                  | [] => REmpty
+                                  | _ => RArr o1 (match first_some (rev c1) with Some j => firstn (length c1 - j) c1 | None => c1 end)
+                                           (count_some (match first_some (rev c1) with Some j => firstn (length c1 - j) c1 | None => c1 end))
+                                  end) = opt_members n_item o1 c1).
+  { intros o1 c1. destruct (first_some (rev c1)) as [j|] eqn:E.
+    - rewrite <- (opt_members_trim_back n_item c1 o1 j E). destruct (firstn (length c1 - j) c1); reflexivity.
+    - destruct c1; reflexivity. }
+  destruct (first_some c) as [i|] eqn:E.
+  - rewrite H1. apply opt_members_trim_front. exact E.
+  - apply H1.
+Qed.
+
+(* n \ s: the members of the result are the members of s with every index moved by n, in the same order *)
+Theorem rep_offset_refines n r r' :
+  rep_offset (vint n) r = Some r' -> mapM (shift_member n) (abs r) = Ok (abs r').
+Proof.
+  unfold rep_offset, vint. cbn [num_trunc]. destruct r; try discriminate; intros [= <-].
+  - reflexivity.
+  - cbn [abs]. rewrite shift_opt_members. unfold new_offset_string. destruct cells; reflexivity.
+  - cbn [abs]. rewrite shift_opt_members. unfold new_offset_bytes. destruct bs; reflexivity.
+  - cbn [abs]. rewrite shift_opt_members, abs_new_offset_array. reflexivity.
+Qed.
+
+(* ... and what it builds is again a well-formed layout *)
+Theorem rep_offset_wf n r r' : wf r -> rep_offset n r = Some r' -> wf r'.
+Proof.
+  unfold rep_offset. destruct n as [nn| |]; try discriminate. destruct r; try discriminate; intros Hwf [= <-]; unfold wf in *.
+  - reflexivity.
+  - unfold new_offset_string. destruct cells; [reflexivity|]. cbn [wfb negb andb]. apply Z.eqb_refl.
+  - unfold new_offset_bytes. destruct bs; reflexivity.
+  - unfold new_offset_array. destruct (first_some cells) as [i|];
+      match goal with |- context [first_some (rev ?c1)] => destruct (first_some (rev c1)) as [j|] end;
+      match goal with |- wfb (match ?c2 with [] => _ | _ => _ end) = true => destruct c2 eqn:E2; [reflexivity|]; cbn [wfb negb andb]; apply Z.eqb_refl end.
+Qed.
+
+(* ---------- a ++ b ---------- *)
+
+Lemma go_shift_spec off m : go_shift off m = match shift_member off m with Ok v => Some v | _ => None end.
+Proof.
+  unfold go_shift, shift_member. destruct m as [|attrs|]; try reflexivity.
+  destruct (tget n_at attrs) as [[k| |]|]; reflexivity.
+Qed.
+
+Lemma shift_member_ok_or_err off m : (exists v, shift_member off m = Ok v) \/ shift_member off m = Err.
+Proof.
+  unfold shift_member. destruct m as [|attrs|]; try (right; reflexivity).
+  destruct (tget n_at attrs) as [[k| |]|]; try (right; reflexivity). left. eexists. reflexivity.
+Qed.
+
+Lemma shift_all_spec off ms :
+  match shift_all off ms with
+  | Some r => mapM (shift_member off) ms = Ok r
+  | None => mapM (shift_member off) ms = Err
+  end.
+Proof.
+  induction ms as [|m ms IH]; [reflexivity|].
+  cbn [shift_all mapM]. rewrite go_shift_spec.
+  destruct (shift_member_ok_or_err off m) as [[v ->]| ->]; [|reflexivity].
+  cbn [rbind]. destruct (shift_all off ms) as [r|]; rewrite IH; reflexivity.
+Qed.
+
+(* a ++ b: what Concatenate hands to its builder is exactly the specification's a ++ b - every member of a and
+   every member of b with its @ moved up by the number of members of a (holes do not count) - and the two fail together *)
+Theorem rep_concat_refines a b :
+  wf a ->
+  concat_sets (abs a) (abs b) = match rep_concat_added a b with Some ms => Ok (mkset ms) | None => Err end.
+Proof.
+  intros Hwf. unfold concat_sets, rep_concat_added. rewrite (count_is_length a Hwf).
+  pose proof (shift_all_spec (Z.of_nat (length (abs a))) (abs b)) as H.
+  destruct (shift_all (Z.of_nat (length (abs a))) (abs b)) as [sb|]; rewrite H; reflexivity.
+Qed.
